@@ -156,6 +156,11 @@ Shapes(k, st) ==
                                                             \* file -- while a file of that name exists beside the ROOT document
        u |-> U(<<Slot(B1, k, "X", Conc("X", <<Ch(s.site, s.kind, RW(B1, <<"r", "sub", "gone.json">>, st))>>)),
                  Slot(<<"r", "gone.json">>, s.kind, "", Conc("Decoy", <<>>))>>, R(Root, B1, k, "X", st), k)],
+      [shape |-> "whole_localdangling", site |-> s.site,   \* root -> b.json#X -> (whole file) w.json, whose own LOCAL reference dangles
+       u |-> U(<<Slot(B1, k, "X", Conc("X", <<Ch(s.site, s.kind, RW(B1, W1, st))>>)),
+                 Slot(W1, s.kind, "", Conc("W", IF Sites(s.kind) = {} THEN <<>>
+                                                ELSE LET t == CHOOSE x \in Sites(s.kind) : TRUE IN <<Ch(t.site, t.kind, R(W1, W1, t.kind, "Missing", st))>>))>>,
+               R(Root, B1, k, "X", st), k)],
       [shape |-> "rootchild", site |-> s.site,      \* a root component with a child site pointing out
        u |-> U(<<Slot(Root, k, "X", Conc("X", <<Ch(s.site, s.kind, R(Root, B1, s.kind, "Y", st))>>)),
                  Slot(B1, s.kind, "Y", Conc("Y", <<>>))>>, R(Root, Root, k, "X", st), k)]}
@@ -261,6 +266,7 @@ QuickSlice(sh, st, e, pos) ==
    \/ (sh.shape \in {"collection", "collection_local"} /\ st = "plain" /\ e \in {"file_abs", "data"})
    \/ (pos = "op2" /\ st = "plain" /\ e = "file_abs")
    \/ (sh.shape \in {"selfcycle", "selfcycle_root", "mutualcycle"} /\ sh.u.use.kind = "callbacks" /\ st = "plain" /\ e \in {"file_abs", "data"})
+   \/ (sh.shape = "whole_localdangling" /\ st = "plain" /\ e \in {"file_abs", "uri_remote", "file_abs_reuse"} /\ pos = "op")
    \/ (sh.shape \in {"escaped_local", "escaped_pct"} /\ st = "plain" /\ e \in {"file_abs", "data"})
    \/ (sh.shape \in {"pathfragment", "pathfragment_ext"} /\ st = "plain" /\ e \in {"file_abs", "data"})
    \/ (sh.shape = "pi_local" /\ st = "plain" /\ e \in {"file_abs", "data"})
